@@ -76,7 +76,8 @@ def run(seed):
                 assert sr == sm, ("sp", sr, sm, [e.tuple for e in R.es])
                 assert R.get_shortest_paths(v) == M.get_shortest_paths(v), "sp-all"
                 assert R.are_adjacent(v, w) == M.are_adjacent(v, w)
-                assert (R.get_eid(v, w, error=False) >= 0) == (M.get_eid(v, w, error=False) >= 0)
+                assert R.get_eid(v, w, error=False) == M.get_eid(v, w, error=False), ("get_eid", v, w, R.get_eid(v, w, error=False), M.get_eid(v, w, error=False), [e.tuple for e in R.es])
+                assert R.get_eid(v, w, error=False, directed=False) == M.get_eid(v, w, error=False, directed=False), ("get_eid undirected", v, w, [e.tuple for e in R.es])
                 if R.is_dag():
                     assert R.topological_sorting() == M.topological_sorting(), ("topo", R.topological_sorting(), M.topological_sorting())
                 else:
